@@ -15,7 +15,10 @@ LEVEL = "exploration"
 RULE = ("Hypothesis: key universes from the full pools (snake/camel/Pascal/kebab, inner digits, ~150 API words, Python keywords, "
         "builtin names, names emitted modules import, punctuation-bearing keys, non-ASCII letters of cased scripts; pairwise "
         "fold-distinct, label non-empty, not digit/underscore-initial, not framework-reserved) -> sample lists (C01's shapes) x "
-        "{base, pydantic, sqlmodel(stub), attrs, dataclasses} x {flat, nested-if-tree} x converters/meta/unicode/literal options; "
+        "{base, pydantic, sqlmodel(stub), attrs, dataclasses} x {flat, nested if every non-root model has one referencing class} x "
+        "converters/meta/unicode/literal options x user-given root model names (some change on sanitising); optionally one or two further "
+        "root models over the same keys, or a further flat root model added to the registry after naming under a name a nested model "
+        "already has (merged and named again); "
         "plus a sweep of every pool key alone as scalar field and as nested-object field x 5 frameworks x 2 unicode settings. "
         "Oracle: compile+exec with only the module's own imports; one class per registered model, names distinct; "
         "get_type_hints resolves every annotation with enclosing class namespaces and every class it mentions is a builtin, a "
